@@ -130,4 +130,10 @@ theorem tie_invariant_key_inputs :
     Gen.ReqClone.v2InvariantArgs = "p.StoreID, modelID, p.Context, p.ContextualTuples..." := by
   decide
 
+/-- every root request of the default engine is built by `NewResolveCheckRequest` (which computes the invariant
+key): no other package builds a `graph.ResolveCheckRequest` as a struct literal — such a literal has invariant key 0
+and zero invalidation time, so its dispatched sub-problems would be cached across requests (finding F30, fixed:
+weighted ListObjects' candidate Checks) -/
+theorem tie_no_foreign_request_literal : Gen.ReqClone.foreignRequestLiterals = [] := by decide
+
 end OpenFGAVerif.ReqClone
